@@ -474,18 +474,31 @@ def run_reparse_forcing(chk: Check, ix) -> None:
     from ..pattern import has
     r10 = chk.rule("R02.10", "State.new_state, on a valid cache meta outside fine-grained cache loading, consults exist_added_packages(suppressed) and exist_removed_submodules(dependencies) and either answer marks the state for re-parsing; states marked so are parsed by load_graph before their dependencies are used", floor=3)
     ns = ix.func("mypy.build.State.new_state")
+    from ..cfg import branch_conditions
+    par10 = ns.module.parents()
     for fn, arg in (("exist_added_packages", "suppressed"), ("exist_removed_submodules", "dependencies")):
         key = f"new_state: {fn}({arg}, manager) => state.needs_parse = True"
-        if has(ns.node, f"if {fn}({arg}, manager):\n    $st.needs_parse = True"):
-            calls = [c for c in ast.walk(ns.node) if isinstance(c, ast.Call) and call_name_(c) == fn]
-            conds = [norm(t) for t in guard_chain(ns, calls[0])[0]]
-            extra = [t for t in conds if t not in ("meta", "not manager.use_fine_grained_cache()")]
-            if "meta" in conds and not extra:
-                r10.ok(key, ns.loc(calls[0]))
-            else:
-                r10.violation(key, ns.loc(calls[0]), f"the test runs under {conds}: it is skipped for some cached modules, whose dependency list then stays as cached although the package structure changed")
+        calls = [c for c in ast.walk(ns.node) if isinstance(c, ast.Call) and call_name_(c) == fn and c.args and norm(c.args[0]) == arg]
+        ok = False
+        why = "a changed package structure no longer forces the importer's dependencies to be recomputed: `from pkg import mod` keeps treating mod as an attribute (or as a module) as it was when cached"
+        for c in calls:
+            # the call is (a disjunct of) the test of an `if` whose body marks the state for re-parsing
+            t = c
+            while isinstance(par10.get(t), ast.BoolOp) and isinstance(par10.get(t).op, ast.Or):
+                t = par10.get(t)
+            iff = par10.get(t)
+            if isinstance(iff, ast.If) and iff.test is t and any(isinstance(a, ast.Assign) and isinstance(a.targets[0], ast.Attribute) and a.targets[0].attr == "needs_parse" and isinstance(a.value, ast.Constant) and a.value.value is True for a in iff.body):
+                pos, neg = branch_conditions(par10, ns.node, iff)
+                conds = [norm(x) for x in pos] + ["not (" + norm(x) + ")" for x in neg]
+                extra = [x for x in conds if x not in ("meta", "not manager.use_fine_grained_cache()")]
+                if "meta" in conds and not extra:
+                    ok = True
+                else:
+                    why = f"the test runs under {conds}: it is skipped for some cached modules, whose dependency list then stays as cached although the package structure changed"
+        if ok:
+            r10.ok(key, ns.loc(calls[0]))
         else:
-            r10.violation(key, ns.loc(), "a changed package structure no longer forces the importer's dependencies to be recomputed: `from pkg import mod` keeps treating mod as an attribute (or as a module) as it was when cached")
+            r10.violation(key, ns.loc(calls[0]) if calls else ns.loc(), why)
     lg = ix.func("mypy.build.load_graph")
     if has(lg.node, "manager.parse_all([$s for $s in $new if $s.needs_parse])") or has(lg.node, "$m.parse_all([$s for $s in $new if $s.needs_parse])"):
         r10.ok("load_graph parses every new state marked needs_parse", lg.loc())
